@@ -11,28 +11,33 @@ def payload_hex(c):
     return p.hex()
 
 
-def compare(ck, sc, res):
+def compare(ck, sc, res, pairs=None, tag=""):
     n = 0
-    for k, (st, ob) in enumerate(zip(sc["conns"], res["obs"])):
+    for k, (st, ob) in enumerate(pairs if pairs is not None else zip(sc["conns"], res["obs"])):
+        if ob.get("note") == "skipped":
+            continue
         n += 1
         c = st["conn"]
         det = "%s:%s" % (c["proto"], "".join(c["head"]))
         full = payload_hex(c)
         exp_hex = full[2 * st["from"]:2 * st["to"]] if st["chosen"] != "none" else ""
         rp = {"cfg": sc["cfg"], "conns": [st], "observed": ob}
+        if sc.get("listener"):
+            rp.update({"listener": sc["listener"], "delay_ms": sc.get("delay_ms", 0), "scheds": sc.get("scheds", []),
+                       "all_conns": sc["conns"]})
         if ob.get("note"):
-            ck.disagree("dispatch/%s/%s" % (c["proto"], "stuck"), "conn %s: %s" % (json.dumps(c), ob["note"]), rp)
+            ck.disagree("dispatch/%s%s/%s" % (tag, c["proto"], "stuck"), "conn %s: %s" % (json.dumps(c), ob["note"]), rp)
         elif ob["ran"] > 1:
-            ck.disagree("dispatch/%s/more-than-one-service" % c["proto"], "%d services saw connection %s" % (ob["ran"], json.dumps(c)), rp)
+            ck.disagree("dispatch/%s%s/more-than-one-service" % (tag, c["proto"]), "%d services saw connection %s" % (ob["ran"], json.dumps(c)), rp)
         elif ob["chosen"] != st["chosen"]:
             kind = "wrong-service" if st["chosen"] != "none" and ob["chosen"] != "none" else (
                 "nobody-chosen" if ob["chosen"] == "none" else "served-but-should-be-closed")
-            ck.disagree("dispatch/%s/%s" % (c["proto"], kind),
+            ck.disagree("dispatch/%s%s/%s" % (tag, c["proto"], kind),
                         "services %s, first segment of %s (r=%d): spec chooses %s, real server %s" % (
                             [s["name"] for e in sc["table"] for s in e["svcs"]], det, c["r"], st["chosen"], ob["chosen"]), rp)
         elif ob["hex"] != exp_hex:
             lost = "peeked-bytes-lost" if full.endswith(ob["hex"]) and len(ob["hex"]) < len(full) else "stream-differs"
-            ck.disagree("dispatch/%s/%s" % (c["proto"], lost),
+            ck.disagree("dispatch/%s%s/%s" % (tag, c["proto"], lost),
                         "service %s read %d of %d bytes (%s...) for %s" % (ob["chosen"], len(ob["hex"]) // 2, len(full) // 2,
                                                                           ob["hex"][:16], json.dumps(c)), rp)
     return n
@@ -50,26 +55,77 @@ def generate(ck, tier):
     return scs, r2.scn
 
 
+def schedules(ck):
+    """Delivery.tla: the listener side (kernel queue, receive buffers, connections aliasing them)."""
+    rdev = lib.tlc("MC_Delivery", timeout=120, constants={"Dev": "TRUE"}, want_scn=False)
+    if rdev.violated != "Inv":
+        raise lib.Infra("deviation shared_receive_buffer no longer violates StreamIntact/NoAliasing in Delivery")
+    r = lib.tlc("MC_Delivery", timeout=120, constants={"Dev": "FALSE"})
+    lib.tlc_must_pass(r, "Delivery (StreamIntact, NoAliasing, EveryoneServed)")
+    ck.add_tlc(r, "Delivery: 3 datagrams, every interleaving of send / listener receive / service read, exhaustive")
+    seen, out = set(), []
+    for s in r.scn:
+        key = (tuple(s["order"]), s["inflight"])
+        if key not in seen:
+            seen.add(key)
+            out.append(s)
+    return out
+
+
+def socket_scenarios(ck, tier, single, scheds, rng):
+    """single-entry configurations served by honeytrap's own socket listener on loopback"""
+    n = 48 if tier == "quick" else len(single)
+    # (a port entry without services is not bound by the socket listener: nothing to deliver)
+    usable = [sc for sc in single if sc["cfg"][0]["svcs"]]
+    pick = rng.sample(usable, min(n, len(usable)))
+    out = []
+    for sc in pick:
+        sc = dict(sc, listener="socket", delay_ms=12)
+        udp = [i for i, st in enumerate(sc["conns"]) if st["conn"]["proto"] == "udp" and st["conn"]["proto"] == sc["cfg"][0]["proto"]
+               and st["conn"]["port"] == sc["cfg"][0]["port"]]
+        sc["scheds"] = []
+        if udp:
+            for sd in (rng.sample(scheds, 5) if tier == "quick" else scheds):
+                three = rng.sample(udp, 3)
+                m = {"d1": three[0], "d2": three[1], "d3": three[2]}
+                sc["scheds"].append({"order": [m[d] for d in sd["order"]], "inflight": sd["inflight"]})
+            # and everything back to back
+            sc["scheds"].append({"order": rng.sample(udp, len(udp)), "inflight": len(udp)})
+        out.append(sc)
+    return out
+
+
 def run(tier, lab):
+    import random
     ck = lib.Check(PROP, tier, "model_checking")
     # model regression: the deviation must break StreamIntact in TLC (else the invariant is too weak)
     rd = lib.tlc("MC_DispatchDev", timeout=300, want_scn=False)
     if rd.violated != "Inv":
         raise lib.Infra("deviation detectorless_after_peek_gets_raw_conn no longer violates StreamIntact in the model")
     single, multi = generate(ck, tier)
-    scs = [dict(s, id=i) for i, s in enumerate(single + multi)]
+    scheds = schedules(ck)
+    sock = socket_scenarios(ck, tier, single, scheds, random.Random(lib.seed()))
+    scs = [dict(s, id=i) for i, s in enumerate(single + multi + sock)]
     results = lib.run_sharded(lab, "c08", scs, shards=min(lib.NCPU, 12))
     byid = {r["id"]: r for r in results}
-    nconn = 0
+    nconn = nsock = nsched = 0
     for sc in scs:
         res = byid.get(sc["id"])
         if res is None or res.get("error"):
             raise lib.Infra("scenario %s: %s" % (sc["id"], res and res.get("error")))
-        nconn += compare(ck, sc, res)
+        if sc.get("listener"):
+            nsock += compare(ck, sc, res, tag="socket-")
+            for sd, obs in zip(sc["scheds"], res.get("sched_obs") or []):
+                nsched += compare(ck, sc, res, pairs=[(sc["conns"][i], ob) for i, ob in zip(sd["order"], obs)],
+                                  tag="socket-inflight%s-" % ("1" if sd["inflight"] == 1 else "N"))
+        else:
+            nconn += compare(ck, sc, res)
+    nconn += nsock + nsched
     ck.cov.update({
         "traces_validated_against_impl": len(scs),
         "configurations_replayed": len(scs), "single_entry_configs": len(single), "multi_entry_configs": len(multi),
-        "connections_replayed": nconn, "evaluations": nconn, "distinct_nontrivial": len(scs),
+        "connections_replayed": nconn, "socket_listener_configs": len(sock), "socket_listener_connections": nsock,
+        "socket_listener_scheduled_datagrams": nsched, "delivery_schedules": len(scheds), "evaluations": nconn, "distinct_nontrivial": len(scs),
         "exhaustive": True,
         "rule": "configuration x connection; single-entry space enumerated completely by TLC, multi-entry tables by -simulate; "
                 "distinct by construction (TLC states)",
@@ -86,10 +142,15 @@ def run(tier, lab):
 def replay(lab, path):
     rp = json.load(open(path))["replay"]
     sc = {"id": 0, "cfg": rp["cfg"], "table": rp["cfg"], "conns": rp["conns"]}
+    if rp.get("listener"):
+        sc.update({"listener": rp["listener"], "delay_ms": rp.get("delay_ms", 0), "scheds": rp.get("scheds", []),
+                   "conns": rp["all_conns"]})
     res = lib.run_sharded(lab, "c08", [sc], shards=1)[0]
     ck = lib.Check(PROP, "quick", "model_checking")
     ck.findings.entries = []
-    compare(ck, sc, res)
+    compare(ck, sc, res, tag="socket-" if rp.get("listener") else "")
+    for sd, obs in zip(sc.get("scheds", []), res.get("sched_obs") or []):
+        compare(ck, sc, res, pairs=[(sc["conns"][i], ob) for i, ob in zip(sd["order"], obs)], tag="socket-sched-")
     print(json.dumps(res, indent=1))
     if ck.violations:
         print("VIOLATION property=C08 replay=%s" % path)
